@@ -43,6 +43,9 @@ func (s *Snapshot) Aggregate(similar Similarity) *Aggregated {
 	type count struct {
 		ids   []int
 		first bool
+		// order is the rank of the bucket by first appearance, so the result
+		// does not depend on the map iteration order.
+		order int
 	}
 	b := map[*Signature]*count{}
 	// O(n²). Fix eventually.
@@ -68,13 +71,13 @@ func (s *Snapshot) Aggregate(similar Similarity) *Aggregated {
 			// Create a copy of the Signature, since it will be mutated.
 			key := &Signature{}
 			*key = routine.Signature
-			b[key] = &count{ids: []int{routine.ID}, first: routine.First}
+			b[key] = &count{ids: []int{routine.ID}, first: routine.First, order: len(b)}
 		}
 	}
-	bs := make([]*Bucket, 0, len(b))
+	bs := make([]*Bucket, len(b))
 	for signature, c := range b {
 		sort.Ints(c.ids)
-		bs = append(bs, &Bucket{Signature: *signature, IDs: c.ids, First: c.first})
+		bs[c.order] = &Bucket{Signature: *signature, IDs: c.ids, First: c.first}
 	}
 	// Do reverse sort.
 	sort.SliceStable(bs, func(i, j int) bool {
